@@ -1,7 +1,11 @@
-(* C01 — property theorems only. *)
-From JV Require Import Lib.Base Lib.Regex Model.TyVal Model.Scalar Proofs.ScalarProofs Gen.C01Resolvers.
+(* C01 — property theorems only. A dumped configuration re-parses to the same configuration.
+   Model: Model/C01Conf.v (value level: adapt_typehints serialise/deserialise, _check_type, dump cleanup, skip_default,
+   text layer scalar by scalar over the REGENERATED resolver tables Gen/C01Resolvers.v); guard = finding classes:
+   Model/C01Guard.v; proofs: Proofs/ScalarProofs.v, Proofs/C01Proofs.v, Proofs/C01TableProofs.v. *)
+From JV Require Import Lib.Base Lib.Regex Model.TyVal Model.Scalar Proofs.ScalarProofs Model.C01Conf Model.C01Guard
+  Proofs.C01Proofs Proofs.C01TableProofs Gen.C01Resolvers.
 
-(* Every string that the dumper's resolver leaves a plain `str` scalar is read back as `str` by the
+(* (S1) Every string that the dumper's resolver leaves a plain `str` scalar is read back as `str` by the
    loader: L(loader's implicit non-str resolvers, with first-character dispatch) ⊆ L(dumper's).
    The tables are regenerated from the live classes on every run; the inclusion is decided by the
    verified checker of Lib/Regex.v (certificate validated inside the kernel by vm_compute). *)
@@ -11,3 +15,79 @@ Proof.
   apply (plain_agree dumper_table loader_table 4000); vm_compute; reflexivity.
 Qed.
 Print Assumptions C01_str_plain_agree.
+
+(* (S2) Every text the number / bool / null representers can write (str(int); SafeRepresenter.represent_float;
+   float.__repr__ of a finite float as json.dumps writes it; true/false; null) is resolved by the loader — and, for
+   YAML, by the dumper, so it is written plain — to the tag of the value it came from: regular-language inclusions
+   into "first regexp of that tag matches and none before it", per first character. *)
+Theorem C01_number_texts_resolve :
+  (forall s, matches int_out s = true -> resolve loader_table s = TgInt /\ resolve dumper_table s = TgInt) /\
+  (forall s, matches yaml_float_out s = true -> resolve loader_table s = TgFloat /\ resolve dumper_table s = TgFloat) /\
+  (forall s, matches repr_float_fin s = true -> resolve loader_table s = TgFloat) /\
+  (forall b, resolve loader_table (bool_text b) = TgBool) /\ resolve loader_table null_text = TgNull.
+Proof. exact number_texts_resolve. Qed.
+Print Assumptions C01_number_texts_resolve.
+
+(* (V) Text layer: for ANY verdict of PyYAML's "may be written plain" analysis, writing a serialised value (None,
+   bool, int, float, str, list, dict — nested, str keys included) as YAML or JSON and loading the text back with the
+   parser's loader returns the same value; JSON needs the floats to be finite. Rests on (S1), (S2) and on Python's
+   int/float <-> text conversions (int_text_ok, yfloat_text_ok, jfloat_text_ok: explicit premises). *)
+Theorem C01_reload_identity :
+  forall (plain_ok : str -> bool) (yrepr jrepr : fl -> str),
+    int_text_ok -> yfloat_text_ok yrepr -> jfloat_text_ok jrepr ->
+    forall f v, (f = FJson -> has_nonfinite v = false) ->
+      reload plain_ok yrepr jrepr dumper_table loader_table f v = v.
+Proof. exact reload_identity. Qed.
+Print Assumptions C01_reload_identity.
+
+(* (P) The property on the model. For every parser (list of leaves: key, type, default — nested groups are dotted
+   keys), every configuration, every variant (format yaml/json, None entries kept or dropped, skip_default or not —
+   i.e. dump, --print_config[=skip_default], save) inside the guard (case_class = 0: none of the seven finding
+   classes), if each leaf value survives its own serialise/parse pair (leaf_stable), then dump -> text -> parse succeeds
+   and returns the configuration, value for value and type for type. For any loader oracle yl and any plain_ok. *)
+Theorem C01_dump_parse_roundtrip :
+  forall (yl : str -> option val) (plain_ok : str -> bool) (yrepr jrepr : fl -> str),
+    int_text_ok -> yfloat_text_ok yrepr -> jfloat_text_ok jrepr ->
+    forall vr lvs,
+      case_class yl vr lvs = 0%N ->
+      Forall (fun lw => leaf_stable yl (fst lw) (snd lw)) lvs ->
+      exists ws, roundtrip yl plain_ok yrepr jrepr dumper_table loader_table vr lvs = Some ws /\
+                 Forall2 (fun w' w => veq w' w = true) ws (map snd lvs).
+Proof. exact dump_parse_roundtrip. Qed.
+Print Assumptions C01_dump_parse_roundtrip.
+
+(* the hypotheses are satisfiable by a non-trivial input: s: str = "1e3", n: Optional[int] = 7, l: List[str] =
+   ["null", "a: b"], dumped with skip_default — and the model run indeed returns the configuration *)
+Example C01_roundtrip_hyps_example :
+  case_class id_yl yaml_skipdef ex_leaves = 0%N /\
+  Forall (fun lw => leaf_stable id_yl (fst lw) (snd lw)) ex_leaves /\
+  roundtrip id_yl no_plain some_text some_text dumper_table loader_table yaml_skipdef ex_leaves = Some (map snd ex_leaves).
+Proof. exact roundtrip_hyps_example. Qed.
+Print Assumptions C01_roundtrip_hyps_example.
+
+(* ---- the full statement (no guard) is false of the faithful model: one witness per finding ---------------------- *)
+(* save(): default skip_none=True drops an explicit None over the default 5; the re-parse gives 5 *)
+Theorem C01_save_skip_none_refuted :
+  exists lf w w', rt some_text save_default lf w = Some w' /\ veq w' w = false.
+Proof. exact save_skip_none_witness. Qed.
+Print Assumptions C01_save_skip_none_refuted.
+
+(* skip_default trims items inside a dict-valued leaf: {a:1,b:2} over the default {a:1,b:3} re-parses to {b:2} *)
+Theorem C01_skip_default_dict_refuted :
+  exists lf w w', rt some_text yaml_skipdef lf w = Some w' /\ veq w' w = false.
+Proof. exact skip_default_dict_witness. Qed.
+Print Assumptions C01_skip_default_dict_refuted.
+
+(* skip_default compares with ==: int 1 over the default 1.0 is dropped and re-parses to the float *)
+Theorem C01_skip_default_eq_refuted :
+  exists lf w w', rt some_text yaml_skipdef lf w = Some w' /\ veq w' w = false.
+Proof. exact skip_default_eq_witness. Qed.
+Print Assumptions C01_skip_default_eq_refuted.
+
+(* JSON formats: `Infinity` is in the output language of json.dumps but the loader resolves it to str; a float leaf
+   holding inf is rejected on the way back *)
+Theorem C01_json_nonfinite_refuted :
+  matches json_float_out (inf_text (FInf false)) = true /\ resolve loader_table (inf_text (FInf false)) = TgStr /\
+  rt inf_text json_keep {| lf_key := kx; lf_ty := CFloat; lf_def := VNone |} (VFloat (FInf false)) = None.
+Proof. exact json_nonfinite_witness. Qed.
+Print Assumptions C01_json_nonfinite_refuted.
